@@ -131,6 +131,24 @@ func (c errCreds) GetRequestMetadata(context.Context, ...string) (map[string]str
 }
 func (errCreds) RequireTransportSecurity() bool { return false }
 
+// capListener hands the accepted (server side) connections to the driver.
+type capListener struct {
+	net.Listener
+	ch chan net.Conn
+	on bool
+}
+
+func (l capListener) Accept() (net.Conn, error) {
+	c, err := l.Listener.Accept()
+	if err == nil && l.on {
+		select {
+		case l.ch <- c:
+		default:
+		}
+	}
+	return c, err
+}
+
 // ---- one case ------------------------------------------------------------------------------
 
 type rec struct {
@@ -172,7 +190,7 @@ func runCase(id int, k kase) (row map[string]any) {
 		}
 	}()
 	var inj error
-	if k.Src != "context" {
+	if k.Src != "context" && k.Src != "transport" {
 		inj = mkErr(k.Kind)
 	}
 	entered := make(chan struct{}, 4)
@@ -182,7 +200,7 @@ func runCase(id int, k kase) (row map[string]any) {
 			var in []byte
 			ss.RecvMsg(&in)
 			return inj
-		case k.Src == "context":
+		case k.Src == "context" || k.Src == "transport":
 			entered <- struct{}{}
 			<-ss.Context().Done()
 			return ss.Context().Err()
@@ -199,12 +217,19 @@ func runCase(id int, k kase) (row map[string]any) {
 	lis := bufconn.Listen(1 << 16)
 	srv := grpc.NewServer(grpc.UnknownServiceHandler(handler))
 	done := make(chan struct{})
-	go func() { srv.Serve(lis); close(done) }()
+	conns := make(chan net.Conn, 8) // the end of the connection that the case closes under the RPC
+	go func() { srv.Serve(capListener{lis, conns, k.Kind.K == "server_conn_closed"}); close(done) }()
 
 	endpoint := fmt.Sprintf("case-%d", id)
 	target := "passthrough:///" + endpoint
 	codec := rawCodec{}
-	dialer := func(ctx context.Context, _ string) (net.Conn, error) { return lis.DialContext(ctx) }
+	dialer := func(ctx context.Context, _ string) (net.Conn, error) {
+		c, err := lis.DialContext(ctx)
+		if err == nil && k.Kind.K == "client_conn_closed" {
+			conns <- c
+		}
+		return c, err
+	}
 	dopts := []grpc.DialOption{grpc.WithTransportCredentials(insecure.NewCredentials())}
 	var copts []grpc.CallOption
 	switch k.Src {
@@ -246,6 +271,8 @@ func runCase(id int, k kase) (row map[string]any) {
 		ctx, cancel = context.WithTimeout(context.Background(), 50*time.Millisecond)
 	case "cancel_during":
 		go func() { <-entered; cancel() }()
+	case "client_conn_closed", "server_conn_closed":
+		go func() { <-entered; (<-conns).Close() }()
 	}
 	errs := []rec{}
 	req, resp := []byte("ping"), []byte{}
